@@ -142,7 +142,6 @@ func gen(r *hx.RNG, tr *hx.Trace) history {
 					an = append(an, x)
 				}
 			}
-			an = samePathID(an) // one path identifier per family and UPDATE (C20 covers mixed ones)
 			post := r.Chance(40)
 			add(frameTok(one(func(c *bmpx.Conv) { c.RouteMon(p, post, bmpx.UpdateFor(p, wd, an)) })),
 				meaning{kind: "ann", peer: pi, post: post, withdraw: wd, announce: an})
@@ -198,26 +197,6 @@ func gen(r *hx.RNG, tr *hx.Trace) history {
 		add("loss", meaning{kind: "loss"})
 	}
 	return h
-}
-
-func samePathID(ns []bmpx.NLRI) []bmpx.NLRI {
-	var id4, id6 *uint32
-	for i := range ns {
-		if ns[i].V6 {
-			if id6 == nil {
-				x := ns[i].ID
-				id6 = &x
-			}
-			ns[i].ID = *id6
-		} else {
-			if id4 == nil {
-				x := ns[i].ID
-				id4 = &x
-			}
-			ns[i].ID = *id4
-		}
-	}
-	return ns
 }
 
 // ---------------------------------------------------------------- running a history
